@@ -284,12 +284,38 @@ def gen_polyline(rng, style, mag):
             e = rng.choice([(0, 0), (1, 0), (0, 1), (-1, 0), (0, -1), (1, 1)])
             P.append((c[0] + s * d[0] + e[0], c[1] + s * d[1] + e[1]))
             P.append((c[0] - u * d[0], c[1] - u * d[1]))
+    elif style == 'nearmiss2':
+        # lines missing a corner by 1/|d| .. 7/|d| (unimodular offsets): the double cross products cancel to a few units
+        c = rng.choice([(l, t), (rr, t), (rr, b), (l, b)])
+        for k in range((n + 1) // 2):
+            a, bb = rng.range(-mag, mag) // 2, rng.range(-mag, mag) // 2
+            g, x, y = egcd(abs(a), abs(bb))
+            if a == 0 or bb == 0 or g != 1:
+                a, bb, x, y = 3, 2, 1, -1
+            sa, sb = (1 if a > 0 else -1), (1 if bb > 0 else -1)
+            kk = rng.choice([1, -1, 2, -2, 3, 5, -7, 0])
+            ap, bp = -sb * y * kk, sa * x * kk
+            s, u = rng.range(1, 2), rng.range(1, 2)
+            pq = [(c[0] + s * a + ap, c[1] + s * bb + bp), (c[0] - u * a, c[1] - u * bb)]
+            if rng.chance(1, 2):
+                pq.reverse()
+            P += pq
     P = [(clampc(x), clampc(y)) for x, y in P]
     return dict(rect=r, path=[list(p) for p in P], style=style, mag=mag)
 
 
-STYLES = ['mixed', 'cross', 'graze', 'along', 'endon', 'walk', 'dups', 'nearmiss']
-MAGS = [6, 30, 1000, 1 << 20, 1 << 25, 1 << 30, 1 << 38]   # rect at <= mag, far points <= 2*mag+..., clamped to 2^40
+def egcd(a, b):
+    x0, y0, x1, y1 = 1, 0, 0, 1
+    while b:
+        q = a // b
+        a, b = b, a - q * b
+        x0, x1 = x1, x0 - q * x1
+        y0, y1 = y1, y0 - q * y1
+    return a, x0, y0
+
+
+STYLES = ['mixed', 'cross', 'graze', 'along', 'endon', 'walk', 'dups', 'nearmiss', 'nearmiss2']
+MAGS = [6, 30, 1000, 1 << 20, 1 << 25, 1 << 30, 1 << 38, 1 << 36]   # rect at <= mag, far points <= 2*mag+..., clamped to 2^40
 
 
 def gen_small_exhaustive(maxn):
@@ -366,57 +392,87 @@ def eval_lines(tools, cases, asan=False):
             d['spec'] = tk
             d['fail'] = classify_lines(tk)
         res.append(d)
+    # root cause classification through the model's ghost tags (only when the model reproduces the output exactly):
+    # a failing output that contains a stale ip2 (tag 3: the GetIntersection call whose result the code ignores
+    # returned false) is one failure mode whatever clause it trips
+    fi = [i for i, d in enumerate(res) if d['fail'] and not d['mismatch'] and d['out'] is not None and not asan]
+    if fi:
+        tl = tools.model([linest_cmd(cases[i]) for i in fi])
+        for i, o in zip(fi, tl):
+            if has_stale(o):
+                res[i]['clauses'] = res[i]['fail']
+                res[i]['fail'] = ['lines.stale-ip2']
     return res
 
 
-def shrink_lines(tools, case, key, is_fail):
-    """greedy delta debugging: drop vertices, move the rectangle to the origin, halve coordinates"""
-    cur = dict(case)
+def linest_cmd(c):
+    return 'LINEST %s %d %s' % (rect_str(c['rect']), len(c['path']), vf.fmt_path(c['path']))
 
-    def fails(c):
-        if len(c['path']) < 2 or c['rect'][0] >= c['rect'][2] or c['rect'][1] >= c['rect'][3]:
-            return False
-        return is_fail(c)
-    for _ in range(60):
+
+def has_stale(o):
+    tk = o.split()
+    if not tk or tk[0] != 'OK':
+        return False
+    pos = 2
+    for _ in range(int(tk[1])):
+        k = int(tk[pos]); pos += 1
+        for _ in range(k):
+            if tk[pos + 2] == '3':
+                return True
+            pos += 4
+    return False
+
+
+def shrink_generic(case, fails_many, min_len):
+    """greedy delta debugging shared by C08/C09: drop vertices, move the rectangle to the origin, halve coordinates,
+    snap single coordinates; every round evaluates all candidates in one batch (fails_many: cases -> [bool])"""
+    cur = dict(case)
+    size = lambda c: (len(c['path']), sum(abs(v) for p in c['path'] for v in p) + sum(abs(v) for v in c['rect']))
+    for _ in range(80):
         cands = []
         P = cur['path']
+        r = cur['rect']
         for k in range(len(P)):
             cands.append(dict(cur, path=P[:k] + P[k + 1:]))
-        r = cur['rect']
         if r[0] != 0 or r[1] != 0:
             cands.append(dict(cur, rect=[0, 0, r[2] - r[0], r[3] - r[1]], path=[[x - r[0], y - r[1]] for x, y in P]))
-        cands.append(dict(cur, rect=[v // 2 for v in r], path=[[x // 2, y // 2] for x, y in P]))
+        for d in (2, 3, 10):
+            cands.append(dict(cur, rect=[v // d for v in r], path=[[x // d, y // d] for x, y in P]))
         for k in range(len(P)):
             for j in (0, 1):
                 v = P[k][j]
-                for nv in (r[j], r[j + 2], (r[j] + r[j + 2]) // 2, v - (1 if v > 0 else -1)):
+                for nv in (r[j], r[j + 2], (r[j] + r[j + 2]) // 2, r[j] - 1, r[j + 2] + 1, v - (1 if v > 0 else -1)):
                     if nv != v:
                         Q = [list(p) for p in P]
                         Q[k][j] = nv
-                        if abs(nv - v) > 1 or abs(v) < 50:
-                            cands.append(dict(cur, path=Q))
-        cands = [c for c in cands if len(c['path']) >= 2]
-        size = lambda c: (len(c['path']), sum(abs(v) for p in c['path'] for v in p) + sum(abs(v) for v in c['rect']))
-        cands = [c for c in cands if size(c) < size(cur)]
+                        cands.append(dict(cur, path=Q))
+        for j in (2, 3):
+            if r[j] - r[j - 2] > 1:
+                rr = list(r)
+                rr[j] = r[j - 2] + max(1, (r[j] - r[j - 2]) // 2)
+                cands.append(dict(cur, rect=rr))
+        cands = [c for c in cands if len(c['path']) >= min_len and c['rect'][0] < c['rect'][2] and c['rect'][1] < c['rect'][3]
+                 and size(c) < size(cur)]
         if not cands:
             break
-        ok = [c for c in cands if fails(c)]
+        res = fails_many(cands)
+        ok = [c for c, f in zip(cands, res) if f]
         if not ok:
             break
         cur = min(ok, key=size)
     return cur
 
 
-def record(ctx, tools, case, d, from_corpus=False):
+def record(ctx, tools, case, d):
     """turn an evaluated failing case into violations (shrunk replay per failure mode)"""
     for key in d['fail']:
-        def is_fail(c, key=key):
-            e = eval_lines(tools, [c])[0]
-            return key in e['fail']
-        small = shrink_lines(tools, case, key, is_fail) if not key.endswith('crash') else case
+        def fails_many(cs, key=key):
+            return [key in e['fail'] for e in eval_lines(tools, cs)]
+        small = shrink_generic(case, fails_many, 2) if not key.endswith('crash') else case
         e = eval_lines(tools, [small])[0]
-        what = ('RectClipLines violates "%s": rect=%s path=%s -> %s ; spec [shape within-rect order length | inside-len edge-len crossings out-len (2^-20)] = %s'
-                % (key, small['rect'], small['path'], e['impl'], ' '.join(e['spec'] or [])))
+        what = ('RectClipLines violates "%s"%s: rect=%s path=%s -> %s ; spec [shape within-rect order length | inside-len edge-len crossings out-len (2^-20)] = %s'
+                % (key, (' (clauses ' + ','.join(e.get('clauses', [])) + '; the output contains the default-constructed/stale ip2 because the result of the second GetIntersection call is ignored)') if key == 'lines.stale-ip2' else '',
+                   small['rect'], small['path'], e['impl'], ' '.join(e['spec'] or [])))
         ctx.violation(key, what, replay=dict(kind='lines', rect=small['rect'], path=small['path'], key=key,
                                                original=dict(rect=case['rect'], path=case['path'])))
 
@@ -430,7 +486,10 @@ def generate(ctx, n_random, maxn):
     cases += small
     # exact scalings/translations of lattice cases into the large regimes
     srng = rng.fork(1)
-    for _ in range(n_random // 6):
+    for c in small:
+        if len(c['path']) <= 3:
+            cases.append(scale_case(c, 1000, -2000, -2000))
+    for _ in range(n_random // 3):
         c = small[srng.below(len(small))]
         k = srng.choice([3, 1000, 1 << 20, 1 << 25, 1 << 30, 1 << 37, (1 << 38) - 1])
         lim = (1 << 40) - 4 * k
@@ -454,6 +513,7 @@ def explore(ctx, tools, n_random, maxn, asan_n):
     nontriv = 0
     mism = []
     nfail = 0
+    shrunk = set()
     for c, d in zip(cases, ev):
         ctx.hist('sizes', len(c['path']))
         ctx.hist('style', c['style'])
@@ -469,15 +529,27 @@ def explore(ctx, tools, n_random, maxn, asan_n):
             mism.append((c, d))
         if d['fail']:
             nfail += 1
-            if nfail <= 12:
-                record(ctx, tools, c, d)
-            else:
-                for key in d['fail']:
-                    ctx.violation(key, 'RectClipLines violates %s: rect=%s path=%s -> %s' % (key, c['rect'], c['path'], d['impl']),
-                                  replay=dict(kind='lines', rect=c['rect'], path=c['path'], key=key))
+            newkeys = [k for k in d['fail'] if k not in shrunk]
+            if newkeys:
+                shrunk.update(newkeys)
+                record(ctx, tools, c, dict(d, fail=newkeys))
+            for key in d['fail']:
+                ctx.hist('failures', key)
     ctx.cov['distinct_nontrivial'] = ctx.cov.get('distinct_nontrivial', 0) + nontriv
     ctx.cov['model_mismatches'] = len(mism)
     ctx.cov['spec_failures'] = nfail
+    # ghost tags of the model: how often does the GetIntersection call whose result the code ignores return false
+    # (tag 3 = stale ip2, the case C09_inside_partial says nothing about)?  Decided by the specification above;
+    # recorded here so that the evidence shows whether that hypothesis was ever exercised.
+    sub = [c for c in cases if c['style'] != 'lattice']
+    tl = tools.model([linest_cmd(c) for c in sub])
+    stale = 0
+    for c, o in zip(sub, tl):
+        if has_stale(o):
+            stale += 1
+            ctx.sample(dict(rect=c['rect'], path=c['path'], tagged=o), key='stale_ip2_samples')
+    ctx.cov['stale_ip2_cases'] = stale
+    ctx.cov['stale_ip2_checked'] = len(sub)
     # sanitizer run on a subset: same outputs, no report
     if tools.asan and asan_n:
         sub = cases[:ncorp] + [cases[i] for i in range(ncorp, len(cases), max(1, (len(cases) - ncorp) // asan_n))]
@@ -500,13 +572,13 @@ def run(ctx):
         'length clause and the 1.5 unit on-polyline clause are validated (exact Liang-Barsky/fixed point square roots extracted from Coq), not proved',
     ]
     ctx.cov['rule'] = ('all polylines with 2..4 vertices on the 5x5 lattice against the central rectangle (exhaustive), exact scalings/translations of those up to |coords| 2^40, '
-                       'and seeded random polylines in 8 styles (mixed special coordinates, complete crossings, corner grazing, along sides, ending on the boundary, '
-                       'random walks, duplicate vertices, near misses of corners) x 7 magnitudes up to 2^40; non-trivial = the exact specification counts >= 1 boundary crossing; distinct by input')
+                       'and seeded random polylines in 9 styles (mixed special coordinates, complete crossings, corner grazing, along sides, ending on the boundary, '
+                       'random walks, duplicate vertices, near misses of corners incl. unimodular 1/|d| misses) x 8 magnitudes up to 2^40; non-trivial = the exact specification counts >= 1 boundary crossing; distinct by input')
     pr = vf.coq_props(ctx, 'C09')
     broken = not pr['ok']
     tools = Tools(ctx)
     quick = ctx.quick and not broken
-    n_random = 80000 if quick else 1200000
+    n_random = 63000 if quick else 1200000
     # 1. leaf functions
     lm = leaf_tie(ctx, tools, 3000 if quick else 60000)
     # 2. whole function: model == implementation, specification on the implementation's output
